@@ -31,7 +31,7 @@ class Owner:
         self.lost = exc
 
 
-async def one_case(enc, mac, comp, direction, kind, k, sizes, taglen, paused=False):
+async def one_case(enc, mac, comp, direction, kind, k, sizes, taglen, paused=False, after_eof=False):
     """returns dict(contents=[bytes per tapped packet], items=[...], delivered=bytes, status=int, sent=bytes)"""
     import asyncssh
     got = {'c': bytearray(), 's': bytearray()}
@@ -105,6 +105,14 @@ async def one_case(enc, mac, comp, direction, kind, k, sizes, taglen, paused=Fal
             data = bytes((len(sent) + j) % 251 + 1 for j in range(n))
             snd.write(data)
             sent.extend(data)
+        if after_eof:
+            # the sender finishes its direction and then sends one more channel message: the alteration hits after
+            # the receiver has seen EOF but before the channel is closed
+            snd.write_eof()
+            if direction == 'c2s':
+                snd.send_signal('INT')
+            else:
+                snd.exit(7)
         await memwire.settle(6)
         pk = []
         contents = []
@@ -118,6 +126,8 @@ async def one_case(enc, mac, comp, direction, kind, k, sizes, taglen, paused=Fal
         foreign = wire.log[rside][-1]
         n = len(pk)
         k = min(k, n - 1)
+        if after_eof:
+            k = n - 1                      # the last packet: behind the EOF
         items = []          # (coq item, bytes to deliver or None for cut)
 
         def orig(i):
@@ -302,8 +312,9 @@ def run(ctx):
                 sizes = [ctx.rng.choice([1, bs - 5, bs - 1, bs, bs + 1, 3 * bs + 5, 200]) for _ in range(4)]
                 sizes = [max(1, s) for s in sizes]
                 paused = kind != 'none' and ctx.rng.random() < 0.3
+                after_eof = (not paused and kind.startswith(('flip-', 'foreign')) and ctx.rng.random() < 0.4)
                 try:
-                    r = sshutil.run(one_case(enc, mac, comp, direction, kind, k, sizes, taglen, paused), timeout=120)
+                    r = sshutil.run(one_case(enc, mac, comp, direction, kind, k, sizes, taglen, paused, after_eof), timeout=120)
                 except Exception as e:
                     ctx.broke('harness:session', f'{enc} {mac} {comp} {direction} {kind}: {e!r}')
                     continue
@@ -313,8 +324,14 @@ def run(ctx):
                 ctx.count('status.%d' % r['status'])
                 cfg = {'kind': 'tamper', 'enc': enc, 'mac': mac, 'comp': comp, 'direction': direction, 'tamper': kind,
                        'k': r['k'], 'sizes': sizes, 'items': r['items'], 'status': r['status'], 'exc': r['exc'],
-                       'paused': paused}
+                       'paused': paused, 'after_eof': after_eof}
                 ctx.count('receiver.' + ('paused' if paused else 'reading'))
+                if after_eof:
+                    ctx.count('tamper.after_eof')
+                    if r['status'] in (2, 3, 5) and not isinstance(r['session_lost'], Exception):
+                        ctx.failing_input(f'{enc}/{mac}/{comp} {direction} {kind} on the packet after the EOF: the connection '
+                                          f'ended with {r["exc"]} before the channel was closed, but the session was told '
+                                          f'connection_lost({r["session_lost"]!r}) - an orderly end', cfg)
                 # ---- direct oracle --------------------------------------------------------------
                 intact = 0
                 for it in r['items']:
@@ -362,6 +379,7 @@ def run(ctx):
     missing = [kd for kd in KINDS if kd not in seen_kinds]
     if missing:
         ctx.broke('vacuity:tamper-kinds', f'kinds never exercised: {missing}')
+    stage_honest_rekey(ctx, encs, macs, comps)
     try:
         from .. import c01_enc
         c01_enc.stage_byte(ctx)
@@ -369,8 +387,104 @@ def run(ctx):
         ctx.broke('stage:byte', repr(e))
 
 
+async def honest_rekey_case(enc, mac, comp, rk_c, rk_s):
+    """Nothing is altered: both directions stream data while the connection re-keys several times.  Everything
+    must arrive intact (per-epoch state such as the compression contexts must be switched on both sides alike)."""
+    import asyncssh
+    import hashlib
+    got = {'c': bytearray(), 's': bytearray()}
+    lost = {}
+
+    class SS(asyncssh.SSHServerSession):
+        def connection_made(self, chan):
+            self.chan = chan
+
+        def shell_requested(self):
+            return True
+
+        def data_received(self, data, datatype):
+            got['s'].extend(data)
+            self.chan.write(data)           # echo
+
+    class CS(asyncssh.SSHClientSession):
+        def data_received(self, data, datatype):
+            got['c'].extend(data)
+
+    class Srv(asyncssh.SSHServer):
+        def begin_auth(self, u):
+            return False
+
+        def session_requested(self):
+            return SS()
+
+        def connection_lost(self, exc):
+            lost['s'] = exc
+
+    class Cli(asyncssh.SSHClient):
+        def connection_lost(self, exc):
+            lost['c'] = exc
+
+    algs = dict(encryption_algs=[enc], mac_algs=[mac], compression_algs=[comp])
+    tun, wire, acc, conn = await memwire.connected_pair(
+        Srv, srv_kw=dict(algs, encoding=None, rekey_bytes=rk_s), cli_kw=dict(algs, client_factory=Cli, rekey_bytes=rk_c))
+    sent = bytearray()
+    try:
+        chan, sess = await conn.create_session(CS, encoding=None)
+        for i in range(40):
+            blob = hashlib.sha256(b'%d' % i).digest() * 16          # 512 bytes, hardly compressible across blobs
+            try:
+                chan.write(blob)
+            except OSError:
+                break
+            sent.extend(blob)
+            await memwire.settle(3)
+        last, quiet = None, 0
+        for _ in range(20000):
+            await asyncio.sleep(0)
+            cur = (len(got['c']), len(got['s']), len(wire.log['c']), len(wire.log['s']))
+            if bytes(got['c']) == bytes(sent) or lost:
+                break
+            quiet = quiet + 1 if cur == last else 0
+            last = cur
+            if quiet > 300:
+                break
+        return dict(sent=len(sent), server_got=len(got['s']), echoed=len(got['c']), intact=bytes(got['c']) == bytes(sent),
+                    lost={k: repr(v) for k, v in lost.items()})
+    finally:
+        conn.abort()
+        wire.cut_link()
+        await memwire.settle(4)
+
+
+def stage_honest_rekey(ctx, encs, macs, comps):
+    rng = ctx.rng
+    n = 0
+    for comp in comps:
+        for rk_c, rk_s in ((3000, 10 ** 9), (10 ** 9, 4000), (2500, 3500)):
+            enc = rng.choice([e for e in encs if 'gcm' not in e and 'chacha' not in e][:6] + [encs[0]])
+            mac = rng.choice(macs)
+            try:
+                r = sshutil.run(honest_rekey_case(enc, mac, comp, rk_c, rk_s), timeout=300)
+            except Exception as e:
+                ctx.broke('harness:honest_rekey', f'{enc} {mac} {comp}: {e!r}')
+                continue
+            n += 1
+            ctx.note_case(('honest_rekey', enc, mac, comp, rk_c, rk_s), nontrivial=True)
+            ctx.count('honest_rekey.' + comp)
+            if not r['intact']:
+                ctx.failing_input(f'{enc}/{mac}/{comp}: an UNALTERED session that re-keys (rekey_bytes client/server '
+                                  f'{rk_c}/{rk_s}) delivered {r["echoed"]} of {r["sent"]} echoed bytes; connection_lost: '
+                                  f'{r["lost"]}', {'kind': 'honest_rekey', 'enc': enc, 'mac': mac, 'comp': comp,
+                                                   'rk_c': rk_c, 'rk_s': rk_s})
+    ctx.cov['oracle']['honest_rekey_sessions'] = n
+
+
 def replay(rp):
     core.setup_paths()
+    if rp.get('kind') == 'honest_rekey':
+        r = sshutil.run(honest_rekey_case(rp['enc'], rp['mac'], rp['comp'], rp['rk_c'], rp['rk_s']), timeout=300)
+        print(r)
+        return 0 if r['intact'] else 1
     if rp.get('kind') == 'byte_tamper':
         from .. import c01_enc
         return c01_enc.replay_byte(rp)
@@ -379,7 +493,7 @@ def replay(rp):
     encs, macs, comps, eparams, mparams = registries()
     taglen = eparams[rp['enc']][4] if aead(rp['enc'], eparams) else mparams[rp['mac']][1]
     r = sshutil.run(one_case(rp['enc'], rp['mac'], rp['comp'], rp['direction'], rp['tamper'], rp['k'], rp['sizes'], taglen,
-                                 rp.get('paused', False)))
+                                 rp.get('paused', False), rp.get('after_eof', False)))
     print(r['items'], r['status'], r['exc'], len(r['delivered']))
     intact = 0
     for it in r['items']:
